@@ -474,6 +474,9 @@ impl Monitor for C05 {
             self.run_int(idx - idx / 17, obs);
         }
     }
+    fn boot_mut(&mut self) -> Option<&mut Xstate> {
+        Some(&mut self.boot)
+    }
     fn describe(&mut self, idx: u64) -> String {
         if idx % 17 == 16 {
             let c = (idx / 17) % 32;
